@@ -599,10 +599,9 @@ def rpcHasWrite : List Str → Outcome Unit
 
 /-- `(*Conf).Validate(key, context)` on conf `c`, with `context.Conf = ctxConf`. -/
 def confValidate (e : Env) (key : Str) (c : Conf) (ctxConf : Option Conf) : Outcome Unit :=
-  if !c.on then .ok () else
-  let k := toUpper key
-  if k == str% "RPCPERMISSIONS" then rpcHasWrite c.values
-  else if k == str% "ACCOUNTWHITE" then
+  if !c.on then .ok ()
+  else if toUpper key == str% "RPCPERMISSIONS" then rpcHasWrite c.values
+  else if toUpper key == str% "ACCOUNTWHITE" then
     rejectIf (!e.adminsEnc.any fun a => hasValue ctxConf a) .state
   else .ok ()
 
@@ -645,28 +644,33 @@ def checkArgs (u : List Site) (e : Env) (ci : CallInfo) : Outcome (List Str) := 
   pure strs
 
 /-- `ValidateChangeCluster` + `CcArgument.parse` -/
+def ccGet (kvs : List (Str × JVal)) (k : Str) : Option Str :=
+  match objGet kvs k with
+  | some (.str s) => some s
+  | _ => none
+
+/-- `CcArgument.parse` -/
+def ccParse (e : Env) (kvs : List (Str × JVal)) : Outcome Unit :=
+  match ccGet kvs (str% "command") with
+  | none => .reject .args
+  | some cmd =>
+    if cmd == str% "add" then
+      match ccGet kvs (str% "name"), ccGet kvs (str% "address"), ccGet kvs (str% "peerid") with
+      | some _, some _, some _ => do
+        rejectIf (!e.ccPeerOk) .args
+        rejectIf (!e.ccAddrOk) .args
+      | _, _, _ => .reject .args
+    else if cmd == str% "remove" then
+      match ccGet kvs (str% "id") with
+      | some _ => rejectIf (!e.ccIdOk) .args
+      | none => .reject .args
+    else .reject .args
+
 def validateChangeCluster (e : Env) (ci : CallInfo) : Outcome Unit := do
   rejectIf (ci.args.length != 1) .args
   let a0 ← idx .eCc0 ci.args 0
   match a0 with
-  | .obj kvs =>
-    let get (k : Str) : Option Str := match objGet kvs k with
-      | some (.str s) => some s
-      | _ => none
-    match get (str% "command") with
-    | none => .reject .args
-    | some cmd =>
-      if cmd == str% "add" then
-        match get (str% "name"), get (str% "address"), get (str% "peerid") with
-        | some _, some _, some _ => do
-          rejectIf (!e.ccPeerOk) .args
-          rejectIf (!e.ccAddrOk) .args
-        | _, _, _ => .reject .args
-      else if cmd == str% "remove" then
-        match get (str% "id") with
-        | some _ => rejectIf (!e.ccIdOk) .args
-        | none => .reject .args
-      else .reject .args
+  | .obj kvs => ccParse e kvs
   | _ => .reject .args
 
 /-- State checks of appendAdmin / removeAdmin. -/
@@ -685,71 +689,103 @@ def validateStored (e : Env) (key : Str) (newConf : Conf) : Outcome Unit :=
   | some stored => confValidate e key stored (some newConf)
   | none => .ok ()
 
+/-- `types.ToAddress(arg)` for `Args[0]` (nil on a decoding error). -/
+def addrOf (e : Env) : List Nat := ((e.arg 0).addr).getD []
+
+/-- `setConfValues`: the stored configuration with the new values, or a fresh one. -/
+def newConfOf (e : Env) (vals : List Str) : Conf :=
+  match e.confKey with
+  | some c => { c with values := vals }
+  | none => { on := false, values := vals }
+
+/-- `getConf` or `&Conf{On: false}`. -/
+def storedOr (e : Env) : Conf := e.confKey.getD { on := false, values := [] }
+
+/-- `enableConf(scs, key, value)` -/
+def enabledConf (e : Env) (value : Bool) : Conf :=
+  match e.confKey with
+  | some c => { c with on := value }
+  | none => { on := value, values := [] }
+
+/-- appendConf / removeConf applied to the configuration. -/
+def modConf (ci : CallInfo) (conf : Conf) (v : Str) : Outcome Conf :=
+  if ci.name == str% "appendConf" then do
+    rejectIf (conf.values.contains v) .state
+    pure { conf with values := conf.values ++ [v] }
+  else do
+    rejectIf (!conf.values.contains v) .state
+    pure { conf with values := conf.values.erase v }
+
+/-- case AppendAdmin, RemoveAdmin -/
+def entAdmin (u : List Site) (e : Env) (ci : CallInfo) : Outcome EntCtx := do
+  rejectIf (ci.args.length != 1) .args
+  fixGuard u .eAdmin0 (!(ci.args.getD 0 .null |> isStr)) .args              -- proposed repair: comma-ok
+  let arg ← argStr .eAdmin0 ci.args 0
+  rejectIf (addrOf e).isEmpty .args
+  fixGuard u .gAdmins ((addrOf e).length != addressLength) .args            -- proposed repair: 33-byte admins only
+  checkAdmin e true
+  adminState e ci arg (addrOf e)
+  pure { ci, args := [arg] }
+
+/-- case SetConf -/
+def entSetConf (u : List Site) (e : Env) (ci : CallInfo) : Outcome EntCtx := do
+  rejectIf (ci.args.length ≤ 1) .args
+  let ctxArgs ← checkArgs u e ci
+  let key ← idx .eCtx0 ctxArgs 0
+  checkAdmin e false
+  let vals ← sliceFrom .eCtxTail ctxArgs 1
+  let _ ← idx .eCtx0 ctxArgs 0
+  validateStored e key (newConfOf e vals)
+  pure { ci, args := ctxArgs }
+
+/-- case AppendConf, RemoveConf -/
+def entModConf (u : List Site) (e : Env) (ci : CallInfo) : Outcome EntCtx := do
+  rejectIf (ci.args.length != 2) .args
+  let ctxArgs ← checkArgs u e ci
+  checkAdmin e false
+  let key ← idx .eCtx0 ctxArgs 0
+  let v ← idx .eCtx1 ctxArgs 1
+  let conf' ← modConf ci (storedOr e) v
+  confValidate e key conf' (some conf')
+  pure { ci, args := ctxArgs }
+
+/-- case EnableConf, after the key was accepted -/
+def entEnableVal (e : Env) (ci : CallInfo) (arg0 : Str) : JVal → Outcome EntCtx
+  | .bool value => do
+    checkAdmin e false
+    confValidate e arg0 (enabledConf e value) (some (enabledConf e value))
+    pure { ci, args := [arg0] }
+  | _ => .reject .args
+
+/-- case EnableConf -/
+def entEnable (e : Env) (ci : CallInfo) : Outcome EntCtx := do
+  rejectIf (ci.args.length != 2) .args
+  let a0 ← idx .eEnable0 ci.args 0
+  match str? a0 with
+  | none => .reject .args
+  | some _ => do
+    let arg0 ← argStr .eEnable0 ci.args 0
+    rejectIf (!enterpriseKey (toUpper arg0)) .args
+    let a1 ← idx .eEnable1 ci.args 1
+    entEnableVal e ci arg0 a1
+
+/-- case ChangeCluster -/
+def entCluster (e : Env) (ci : CallInfo) : Outcome EntCtx := do
+  rejectIf (!e.raft) .unsupported
+  validateChangeCluster e ci
+  checkAdmin e false
+  pure { ci, anyLen := 1 }
+
 /-- `enterprise.ValidateEnterpriseTx` -/
 def entValidate (u : List Site) (e : Env) : Outcome EntCtx :=
   match unmarshalCallInfo e.tx.payload with
   | none => .reject .payload
   | some ci =>
-    if ci.name == str% "appendAdmin" || ci.name == str% "removeAdmin" then do
-      rejectIf (ci.args.length != 1) .args
-      fixGuard u .eAdmin0 (!(ci.args.getD 0 .null |> isStr)) .args              -- proposed repair: comma-ok
-      let arg ← argStr .eAdmin0 ci.args 0
-      let address := ((e.arg 0).addr).getD []
-      rejectIf address.isEmpty .args
-      fixGuard u .gAdmins (address.length != addressLength) .args               -- proposed repair: 33-byte admins only
-      checkAdmin e true
-      adminState e ci arg address
-      pure { ci, args := [arg] }
-    else if ci.name == str% "setConf" then do
-      rejectIf (ci.args.length ≤ 1) .args
-      let ctxArgs ← checkArgs u e ci
-      let key ← idx .eCtx0 ctxArgs 0
-      checkAdmin e false
-      let vals ← sliceFrom .eCtxTail ctxArgs 1
-      let newConf : Conf := match e.confKey with
-        | some c => { c with values := vals }
-        | none => { on := false, values := vals }
-      let _ ← idx .eCtx0 ctxArgs 0
-      validateStored e key newConf
-      pure { ci, args := ctxArgs }
-    else if ci.name == str% "appendConf" || ci.name == str% "removeConf" then do
-      rejectIf (ci.args.length != 2) .args
-      let ctxArgs ← checkArgs u e ci
-      checkAdmin e false
-      let key ← idx .eCtx0 ctxArgs 0
-      let conf : Conf := e.confKey.getD { on := false, values := [] }
-      let v ← idx .eCtx1 ctxArgs 1
-      let conf' ← (if ci.name == str% "appendConf" then do
-          rejectIf (conf.values.contains v) .state
-          pure { conf with values := conf.values ++ [v] }
-        else do
-          rejectIf (!conf.values.contains v) .state
-          pure { conf with values := conf.values.erase v } : Outcome Conf)
-      confValidate e key conf' (some conf')
-      pure { ci, args := ctxArgs }
-    else if ci.name == str% "enableConf" then do
-      rejectIf (ci.args.length != 2) .args
-      let a0 ← idx .eEnable0 ci.args 0
-      match str? a0 with
-      | none => .reject .args
-      | some _ => do
-        let arg0 ← argStr .eEnable0 ci.args 0
-        rejectIf (!enterpriseKey (toUpper arg0)) .args
-        let a1 ← idx .eEnable1 ci.args 1
-        match a1 with
-        | .bool value => do
-          checkAdmin e false
-          let conf : Conf := match e.confKey with
-            | some c => { c with on := value }
-            | none => { on := value, values := [] }
-          confValidate e arg0 conf (some conf)
-          pure { ci, args := [arg0] }
-        | _ => .reject .args
-    else if ci.name == str% "changeCluster" then do
-      rejectIf (!e.raft) .unsupported
-      validateChangeCluster e ci
-      checkAdmin e false
-      pure { ci, anyLen := 1 }
+    if ci.name == str% "appendAdmin" || ci.name == str% "removeAdmin" then entAdmin u e ci
+    else if ci.name == str% "setConf" then entSetConf u e ci
+    else if ci.name == str% "appendConf" || ci.name == str% "removeConf" then entModConf u e ci
+    else if ci.name == str% "enableConf" then entEnable e ci
+    else if ci.name == str% "changeCluster" then entCluster e ci
     else .reject .payload
 
 /-- `enterprise.ExecuteEnterpriseTx`: argument handling after the validation. -/
@@ -774,11 +810,14 @@ def entExecute (u : List Site) (e : Env) : Outcome Unit := do
 
 /-! ### The two entry points of the property -/
 
+/-- Forget the result (`if _, err := f(); err != nil { return err }`). -/
+def void (x : Outcome α) : Outcome Unit := x >>= fun _ => .ok ()
+
 /-- `mempool.validateTx`, governance branch (after ValidateWithSenderState). -/
 def poolGov (u : List Site) (e : Env) : Outcome Unit :=
-  if e.tx.recipient == aergoSystem then do let _ ← sysValidate u e
-  else if e.tx.recipient == aergoName then do let _ ← nameValidate e
-  else if e.tx.recipient == aergoEnterprise then do let _ ← entValidate u e
+  if e.tx.recipient == aergoSystem then void (sysValidate u e)
+  else if e.tx.recipient == aergoName then void (nameValidate e)
+  else if e.tx.recipient == aergoEnterprise then void (entValidate u e)
   else .ok ()
 
 /-- Pool admission: `verifyTx` (Validate + signature), then `put`'s `validateTx`.  Only governance
